@@ -410,9 +410,9 @@ func ruleUnknownFirst(w *World, r *Run, a *updAnalysis, rule string) {
 			r.Fail(rule, key, w.pos(v.s.RetPos), "path returns without testing membership of logID in the configured logs; path: "+pathString(a.eng, v.s))
 			continue
 		}
-		// nothing but the lookup may happen before the test
+		// nothing but the lookup (and observation: clock reads, logging, tracing) may happen before the test
 		for _, ev := range v.s.Events {
-			if ev.Seq < v.knownSeq && ev.Kind != "mapread" {
+			if ev.Seq < v.knownSeq && ev.Kind != "mapread" && !observationOnly(a, ev) {
 				r.Fail(rule, a.key(v, "effect before known-log test"), w.pos(ev.Pos), "event "+short(ev.Callee)+" precedes the known-log test")
 			}
 		}
@@ -423,7 +423,7 @@ func ruleUnknownFirst(w *World, r *Run, a *updAnalysis, rule string) {
 				if ev.Kind == "mapread" || ev.Kind == "defer" {
 					continue
 				}
-				if ev.Kind == "call" && (calleePkg(ev.Callee) == "k8s.io/klog/v2" || calleePkg(ev.Callee) == "fmt") {
+				if observationOnly(a, ev) {
 					continue
 				}
 				clean = false
@@ -810,9 +810,9 @@ func ruleHonestStep(w *World, r *Run, a *updAnalysis, rule string) {
 	}
 	classes := []class{{"0=stored=submitted", true, true}, {"0=stored<submitted", true, false}, {"0<stored=submitted", false, true}, {"0<stored<submitted", false, false}}
 	for _, c := range classes {
-		success := 0
+		success, refused := 0, 0
 		considered := 0
-		condNote := ""
+		condNote, refusedAt := "", ""
 		var deadEnd *updPath
 		for _, v := range a.paths {
 			if v.prev == nil || v.next == nil || v.known != 1 {
@@ -889,15 +889,28 @@ func ruleHonestStep(w *World, r *Run, a *updAnalysis, rule string) {
 					extraCond = short(t.String())
 				}
 			}
-			if v.outcome == "accepted" && extraCond == "" {
+			// every path an honest request can take must accept: a condition outside the protocol's own predicates (a
+			// verbosity test, a tracing hook) may split the paths, but it must not decide the answer
+			if v.outcome == "accepted" {
 				success++
-			} else if v.outcome == "accepted" {
-				condNote = extraCond
+			} else {
+				refused++
+				if extraCond != "" {
+					condNote = extraCond
+				}
+				if refusedAt == "" {
+					refusedAt = w.pos(s.RetPos)
+				}
 			}
 		}
 		key := fmt.Sprintf("%s | honest step | order-class %s", fnUpdate, c.name)
 		pos := ""
+		_ = pos
 		msg := fmt.Sprintf("no path accepts an honest update in ordering class %s (%d honest paths considered)", c.name, considered)
+		if success >= 1 && refused > 0 {
+			msg = fmt.Sprintf("an honest update in ordering class %s is refused on %d of the %d paths it can take", c.name, refused, considered)
+			pos = refusedAt
+		}
 		if condNote != "" {
 			msg += "; acceptance additionally depends on " + condNote + ", which an honest request need not satisfy"
 		}
@@ -905,7 +918,7 @@ func ruleHonestStep(w *World, r *Run, a *updAnalysis, rule string) {
 			pos = w.pos(deadEnd.verifies[0].Pos)
 			msg += ": proof.VerifyConsistency is reached with size1 == 0 < size2, which it always rejects"
 		}
-		r.Check(success >= 1, rule, key, pos, msg)
+		r.Check(success >= 1 && refused == 0, rule, key, pos, msg)
 	}
 }
 
@@ -1061,6 +1074,7 @@ func ruleDecisionTable(w *World, r *Run, a *updAnalysis, rule string) {
 	type pathInfo struct {
 		v        *updPath
 		faultArm bool // path takes a storage/sign fault arm (outside the protocol table)
+		extra    []string
 	}
 	var infos []pathInfo
 	for _, v := range a.paths {
@@ -1095,10 +1109,11 @@ func ruleDecisionTable(w *World, r *Run, a *updAnalysis, rule string) {
 				})
 				if hidden {
 					r.Fail(rule, a.key(v, "verdict depends only on request, configuration and the checkpoint read in this call"), w.pos(f.At), "the verdict branches on "+short(t.String())+": state kept in the witness outside the store (it can disagree with the stored checkpoint after a failed write or a restart, so the first matching protocol rule is decided on the wrong sizes)")
-				} else {
-					r.Undecided(rule, a.key(v, "unrecognised predicate"), w.pos(f.At), "branch condition "+short(t.String())+" is not a predicate the decision table understands")
+					return
 				}
-				return
+				// any other condition (a verbosity test, a classification inside an observer) may split a cell into several
+				// paths; the cell check below demands that they all give the same answer
+				pi.extra = append(pi.extra, short(t.String()))
 			}
 		}
 		for _, ev := range append(append(append([]Event(nil), v.signs...), v.sets...), calls(s, cWriteOps)...) {
@@ -1132,8 +1147,9 @@ func ruleDecisionTable(w *World, r *Run, a *updAnalysis, rule string) {
 	cells, mism, nonuniq := 0, 0, 0
 	evalCell := func(desc string, want string, match func(pi pathInfo) bool) {
 		cells++
-		var hits []string
+		var hits, extras []string
 		var hit *updPath
+		plain := 0
 		for _, pi := range infos {
 			if pi.faultArm {
 				continue
@@ -1141,10 +1157,21 @@ func ruleDecisionTable(w *World, r *Run, a *updAnalysis, rule string) {
 			if match(pi) {
 				hits = append(hits, outcome(pi.v))
 				hit = pi.v
+				extras = append(extras, pi.extra...)
+				if len(pi.extra) == 0 {
+					plain++
+				}
 			}
 		}
 		n := len(hits)
 		hits = uniqStrings(hits)
+		_ = plain
+		if n > 1 && len(hits) == 1 {
+			n = 1 // one answer, reached on paths that differ only in conditions outside the protocol's predicates
+		}
+		if len(hits) > 1 && len(extras) > 0 {
+			hits = append(hits, "depending on "+strings.Join(uniqStrings(extras), ", "))
+		}
 		key := fmt.Sprintf("%s | cell %s", fnUpdate, desc)
 		pos := ""
 		if hit != nil {
@@ -1153,7 +1180,7 @@ func ruleDecisionTable(w *World, r *Run, a *updAnalysis, rule string) {
 		switch {
 		case n != 1:
 			nonuniq++
-			r.Fail(rule, key, pos, fmt.Sprintf("cell is answered by %d paths %v, want exactly one (want %s)", n, hits, want))
+			r.Fail(rule, key, pos, fmt.Sprintf("cell is answered by %d paths with the answers %v, want one answer (want %s)", n, hits, want))
 		case want != "" && hits[0] != want:
 			mism++
 			r.Fail(rule, key, pos, fmt.Sprintf("answered %s, the first matching rule of the protocol says %s", hits[0], want))
@@ -1477,6 +1504,8 @@ func onceDoClosures(fn *ssa.Function) []*ssa.Function {
 	return out
 }
 
+var c20Metrics = map[string]bool{"witness_update_request": true, "witness_update_success": true, "witness_update_invalid_consistency": true, "witness_update_inconsistent_checkpoints": true}
+
 func ruleOutcomeCounter(w *World, r *Run, a *updAnalysis, rule string) {
 	if !a.guard(r, rule) {
 		return
@@ -1502,6 +1531,10 @@ func ruleOutcomeCounter(w *World, r *Run, a *updAnalysis, rule string) {
 			m, ok := names[g]
 			if !ok {
 				m = "unknown-counter:" + short(fmt.Sprint(ie.Recv))
+			}
+			// the property speaks about these four; a counter created under another metric name is not one of them
+			if ok && !c20Metrics[m] {
+				continue
 			}
 			cnt[m]++
 		}
@@ -1533,4 +1566,33 @@ func ruleCounterLabel(w *World, r *Run, a *updAnalysis, rule string) {
 			r.Check(ok, rule, a.key(v, "Inc label"), w.pos(ie.Pos), "counter label is "+short(fmt.Sprint(ie.Args))+", want exactly the request's log ID")
 		}
 	}
+}
+
+
+// observationOnly: the event cannot change or reveal witness state: deferrals, reads, calls into the logging, clock,
+// formatting and string packages of the standard library and klog, and calls of an operator-supplied callback held in the
+// witness's own configuration that is handed nothing but scalars (outcome codes, durations).
+var observationPkgs = map[string]bool{"k8s.io/klog/v2": true, "fmt": true, "time": true, "errors": true, "strings": true, "strconv": true, "bytes": true, "unicode/utf8": true, "sort": true, "math": true, "math/bits": true, "runtime": true}
+
+func observationOnly(a *updAnalysis, ev Event) bool {
+	switch ev.Kind {
+	case "defer", "mapread", "index", "fieldaddr", "copyconv", "slice":
+		return true
+	case "call":
+		if observationPkgs[calleePkg(ev.Callee)] {
+			return true
+		}
+		if ev.Callee == "dyn" && ev.Recv != nil && mentions(ev.Recv, a.pRecv) {
+			for _, x := range ev.Args {
+				if x == nil || x.Typ == nil {
+					return false
+				}
+				if _, basic := x.Typ.Underlying().(*types.Basic); !basic {
+					return false
+				}
+			}
+			return true
+		}
+	}
+	return false
 }
